@@ -27,6 +27,14 @@ Theorem C11_fragment_decodes : forall st first c prev, pid_ok st ->
 Proof. exact vp8_fragment_decodes. Qed.
 Print Assumptions C11_fragment_decodes.
 
+(* IsPartitionHead on the payloader's fragments: true on the first, false on every other, with and
+   without picture ids *)
+From RTP Require Import Proofs.PartitionHead.
+Theorem C11_partition_head : forall st first c, vp8_is_partition_head (Some (vp8_header st first ++ c)) = first.
+Proof. exact vp8_head. Qed.
+Print Assumptions C11_partition_head.
+
+
 (* VP8Packet decodes every RFC 7741 descriptor (all X/I/M/L/T/K combinations, all field values) to
    exactly the encoded values and returns the bytes that follow it, whatever the receiver held *)
 Theorem C11_decode : forall d prev rest, wf_desc d ->
